@@ -516,7 +516,7 @@ class Mir:
         if len(hits) != 1: raise KeyError('method (%s,%s,%s,%s): %d hits' % (ty, trait, meth, file, len(hits)))
         return self.fns[hits[0]].parse()
 
-    def closure_of(self, closure_type, parent=None):
+    def closure_of(self, closure_type, parent=None, arg_hint=None):
         """closure type text `{closure@src/x.rs:L:C: L:C}` -> Fn (body).  Macro-generated closures (izip!) share
         one type text; they are disambiguated by the function that created the value and must then be
         interchangeable (same signature)."""
@@ -537,6 +537,13 @@ class Mir:
                 return re.sub(r'[^(),]', '', t)
             sigs = {tuple(shape(t) for _, t in self.fns[h].args[1:]) + (shape(self.fns[h].ret),) for h in hits}
             if len(sigs) == 1 and '/itertools-' in key: hits = hits[:1]
+        if len(hits) > 1 and arg_hint is not None:
+            h2 = [h for h in hits if arg_hint(self.fns[h].args[1][1] if len(self.fns[h].args) > 1 else '')]
+            if h2: hits = h2
+        if len(hits) > 1:
+            # derive-generated closures of one struct share a span; identical bodies are interchangeable
+            def norm(h): return re.sub(r'\{closure#\d+\}', '{closure}', '\n'.join(l.split(' // ')[0].rstrip() for l in self.fns[h]._lines))
+            if len({norm(h) for h in hits}) == 1: hits = hits[:1]
         if len(hits) != 1: raise KeyError('closure %s (parent %s): %d hits' % (key, parent, len(hits)))
         return self.fns[hits[0]].parse()
 
